@@ -35,7 +35,7 @@ ANCHORS = [
     ('pjrpc/client/integrations/pytest.py', 'PjRpcMocker._cleanup_matches'),
 ]
 FLOORS = {'*': {'op:add': 500, 'op:replace': 50, 'op:remove-method': 50, 'op:remove-endpoint': 30, 'op:reset': 30,
-                'op:call': 500, 'op:batch': 200, 'op:batch-of-one': 50, 'once-exhausted-inside-batch': 10, 'passthrough': 50, 'refused': 50,
+                'op:call': 500, 'op:batch': 200, 'op:batch-of-one': 50, 'op:replace-negative-index': 20, 'once-exhausted-inside-batch': 10, 'passthrough': 50, 'refused': 50,
                 'unpatched-method': 50, 'client:sync': 200, 'client:async': 200, 'round-robin>=3': 30, 'callback': 50,
                 'id:falsy': 30}}
 
@@ -105,9 +105,11 @@ def run_history(ctx, ops, passthrough, is_async):
                 if name == 'replace':
                     _, ep, m, kind, once, idx = op
                     lst = model[ep].get(m) or []
-                    if idx >= len(lst):
+                    if not -len(lst) <= idx < len(lst):
                         ctx.skip('replace-at-invalid-index')
                         continue
+                    if idx < 0:
+                        ctx.hit('op:replace-negative-index')        # list semantics: counted from the end
                     tag += 1
                     mocker.replace(ep, m, once=once, idx=idx, **patch_value(kind, tag))
                     lst[idx] = {'kind': kind, 'tag': tag, 'once': once}
@@ -244,6 +246,9 @@ def call_ops(rng, rich):
         for m in METHODS:
             out.append(['call', ep, [[m, [1, 'a'], ids[len(out) % 5]]]])
             out.append(['call', ep, [[m, {'k': 1}, ids[(len(out) + 2) % 5]]]])
+            # named params spelled like parameters of the mocker's own functions
+            out.append(['call', ep, [[m, [{'version': 2}, {'endpoint': 'x', 'method_name': 'y'}, {'self': 1, 'args': [1], 'kwargs': {}},
+                                          {'result': 1, 'error': 2, 'callback': 3, 'once': True, 'idx': 0}][len(out) % 4], 5]]])
         out.append(['call', ep, [['ma', [1], 1], ['ma', [2], 2]]])
         # a batch of exactly one element is still a batch: the reply is a one-element array
         out.append(['batch', ep, [['ma', [1], 1]]])
@@ -266,6 +271,8 @@ def mut_ops():
             out.append(['replace', ep, m, 'error', True, 1])
             out.append(['replace', ep, m, 'callback', False, 2])
             out.append(['replace', ep, m, 'result', True, 0])
+            out.append(['replace', ep, m, 'error', False, -1])
+            out.append(['replace', ep, m, 'result', True, -2])
             out.append(['remove', ep, m])
         out.append(['remove', ep, None])
     out.append(['reset'])
